@@ -342,14 +342,14 @@ static void do_msg(char **w, int n) {
     for (int i = 0; i < nf; i++) if (!parse_fate(fp[i], &fates[nfates++])) { printf("bad-op"); return; }
   }
   if (ns < 1) { printf("bad-op"); return; }
-  /* write failures are modelled for the base alphabet only (Model/MsgLayerW.lean), not together with S: / i: / k: / p:,
+  /* write failures are modelled for the base alphabet and ICMP events (Model/MsgLayerW.lean, MsgLayerI.lean), not together with S: / k: / p:,
    * piggy-backed fates or DTLS sessions */
   {
     int hasx = 0, hasp = 0;
     for (int i = 0; i < nfates; i++) { if (fates[i].kind == 3) hasx = 1; if (fates[i].kind == 4) hasp = 1; }
     if (hasx && hasp) { printf("bad-op"); return; }
     for (int j = 2; hasx && j < n; j++)
-      if ((w[j][0] == 'S' || w[j][0] == 'i' || w[j][0] == 'k' || w[j][0] == 'p') && w[j][1] == ':') { printf("bad-op"); return; }
+      if ((w[j][0] == 'S' || w[j][0] == 'k' || w[j][0] == 'p') && w[j][1] == ':') { printf("bad-op"); return; }
     for (int i = 0; hasx && i < ns; i++) {
       int dots = 0;
       for (char *c = sp[i]; *c; c++) if (*c == '.') dots++;
